@@ -90,6 +90,8 @@ structure St (C : Codec) where
   /-- ghost: did the last deflate call made for a flush report completion (Z_OK with room left,
       or Z_BUF_ERROR = nothing to flush)? -/
   flushDone : Bool := true
+  /-- ghost: did the last inflate call return with room left in the caller's buffer? -/
+  readDone : Bool := true
   /-- allocation inventory of compression_init: the record and the two buffers -/
   recLive : Bool := true
   cbufLive : Bool := true
@@ -221,7 +223,7 @@ def connDecompress (s : St C) (fresh : Bytes) (len : Nat) : St C × Int × Bytes
   let n := d.2.1
   let o := d.2.2.1
   let rc := d.2.2.2
-  let s := { s with zi := d.1 }
+  let s := { s with zi := d.1, readDone := decide (o.length < len) }
   if rc = Gen.Zl.zStreamEnd ∨ rc = Gen.Zl.zOk then
     ({ s with inPend := if (inp.drop n).isEmpty then none else some (inp.drop n) },
      (o.length : Int), o)
@@ -279,5 +281,42 @@ def compressionFree (s : St C) : St C :=
 
 def liveBlocks (s : St C) : Nat :=
   (if s.recLive then 1 else 0) + (if s.cbufLive then 1 else 0) + (if s.dbufLive then 1 else 0)
+
+end Strophe.Compression
+
+/-! ### histories (what the property quantifies over) -/
+
+namespace Strophe.Compression
+
+/-- what the application and the event loop do on the write side -/
+inductive Op
+  | send (b : Bytes)               -- xmpp_send_raw
+  | iter (sched : List Accept)     -- one xmpp_run_once; `sched` = the lower transport's answers
+  deriving Repr
+
+def runOp {C : Codec} (fuel : Nat) (s : St C) : Op → St C
+  | .send b => sendRaw s b
+  | .iter sc => runOnceSend fuel { s with sched := sc }
+
+def run {C : Codec} (fuel : Nat) (s : St C) (ops : List Op) : St C := ops.foldl (runOp fuel) s
+
+/-- the uncompressed stream the client would have sent -/
+def submitted : List Op → Bytes
+  | [] => []
+  | .send b :: r => b ++ submitted r
+  | .iter _ :: r => submitted r
+
+/-- bytes of the submitted stream the write loop has taken from the queue -/
+def acked {C : Codec} (s : St C) (ops : List Op) : Nat :=
+  (submitted ops).length - (s.queue.map fun e => e.1.length - e.2).sum
+
+/-- every lower-transport answer of the history is "accept everything" -/
+def Op.allAccept : Op → Prop
+  | .send _ => True
+  | .iter sc => ∀ a ∈ sc, a = Accept.all
+
+/-- the compressed fragments arrive one after the other; plaintext delivered to the parser -/
+def rxAll {C : Codec} (fuel : Nat) (s : St C) (frags : List Bytes) : St C × Bytes :=
+  frags.foldl (fun p f => let r := rxFragment fuel p.1 f; (r.1, p.2 ++ r.2.1)) (s, [])
 
 end Strophe.Compression
